@@ -13,43 +13,7 @@
 (* Types are records [k, n, a]: k in int bool str void arr struct union    *)
 (* enum tuple fn variant err.                                              *)
 (***************************************************************************)
-EXTENDS Integers, Sequences, FiniteSets, TLC
-
-Ty(k, n, a) == [k |-> k, n |-> n, a |-> a]
-TFloat == Ty("float", "", <<>>)
-TInt == Ty("int", "", <<>>)    TBool == Ty("bool", "", <<>>)   TStr == Ty("str", "", <<>>)   TVoid == Ty("void", "", <<>>)
-TArr(t) == Ty("arr", "", <<t>>)
-TAny == Ty("any", "", <<>>)                \* type of an empty array literal's elements
-Err(rule) == Ty("err", rule, <<>>)
-IsErr(t) == t.k = "err"
-
-RECURSIVE FindLastT(_, _, _)
-FindLastT(seq, name, k) == IF k = 0 THEN 0 ELSE IF seq[k].n = name THEN k ELSE FindLastT(seq, name, k - 1)
-FindT(seq, name) == FindLastT(seq, name, Len(seq))
-RECURSIVE IndexOfT(_, _, _)
-IndexOfT(seq, x, k) == IF k > Len(seq) THEN 0 ELSE IF seq[k] = x THEN k ELSE IndexOfT(seq, x, k + 1)
-
-\* type compatibility: identical, or an empty array literal against any array type
-RECURSIVE Compat(_, _)
-Compat(want, got) ==
-   \/ want = got
-   \/ want.k = "arr" /\ got.k = "arr" /\ (got.a[1].k = "any" \/ Compat(want.a[1], got.a[1]))
-   \/ want.k = "union" /\ got.k = "variant" /\ got.a[1] = want.n          \* a constructed variant is a value of its union
-   \/ (want.k = "enum" /\ got.k = "int")                                 \* 3.4.2: enum constants are integers
-   \/ (want.k = "int" /\ got.k = "enum")
-
-FnType(f) == Ty("fn", "", f.ptyS \o <<f.retS>>)            \* parameters then result
-\* "Union.Variant" lookup: <<union index, variant index>> or <<0, 0>>
-RECURSIVE FindUVT(_, _, _, _)
-FindUVT(us, full, ui, vi) ==
-   IF ui > Len(us) THEN <<0, 0>>
-   ELSE IF vi > Len(us[ui].variants) THEN FindUVT(us, full, ui + 1, 1)
-   ELSE IF (us[ui].n \o "." \o us[ui].variants[vi].n) = full THEN <<ui, vi>> ELSE FindUVT(us, full, ui, vi + 1)
-RECURSIVE FindEVT(_, _, _, _)
-FindEVT(es, full, ei, vi) ==
-   IF ei > Len(es) THEN <<0, 0>>
-   ELSE IF vi > Len(es[ei].variants) THEN FindEVT(es, full, ei + 1, 1)
-   ELSE IF (es[ei].n \o "." \o es[ei].variants[vi].n) = full THEN <<ei, vi>> ELSE FindEVT(es, full, ei, vi + 1)
+EXTENDS Integers, Sequences, FiniteSets, TLC, NanoTy, NanoTypeLib
 
 LookupT(P, G, name) ==
    LET k == FindT(G, name) IN
@@ -67,7 +31,9 @@ AnyErr(ts) == \E i \in 1..Len(ts) : IsErr(ts[i])
 
 BuiltinsT == {"println", "print", "array_length", "at", "array_set", "array_push", "array_pop",
               "str_length", "int_to_string", "abs", "min", "max", "str_substring", "str_contains", "str_equals", "str_concat",
-              "char_at", "string_from_char", "string_to_int"}
+              "char_at", "string_from_char", "string_to_int",
+              "map_new", "map_put", "map_get", "map_has", "map_size", "map_length", "map_remove"}
+IsTypedMap(t) == t.k = "map" /\ MapKeyOk(t.a[1]) /\ MapKeyOk(t.a[2])
 BuiltinType(name, ts) ==
    LET n == Len(ts) IN
    CASE name \in {"println", "print"} -> IF n # 1 THEN Err("arity") ELSE TVoid      \* print accepts a value of any type (9.5)
@@ -86,6 +52,12 @@ BuiltinType(name, ts) ==
      [] name = "string_to_int" -> IF n # 1 THEN Err("arity") ELSE IF ts[1] = TStr THEN TInt ELSE Err("argtype")
      [] name = "abs" -> IF n # 1 THEN Err("arity") ELSE IF ts[1] = TInt THEN TInt ELSE Err("argtype")
      [] name \in {"min", "max"} -> IF n # 2 THEN Err("arity") ELSE IF ts[1] = TInt /\ ts[2] = TInt THEN TInt ELSE Err("argtype")
+     [] name = "map_new" -> IF n # 0 THEN Err("arity") ELSE TMap(TAny, TAny)
+     [] name = "map_put" -> IF n # 3 THEN Err("arity") ELSE IF IsTypedMap(ts[1]) /\ ts[2] = ts[1].a[1] /\ ts[3] = ts[1].a[2] THEN TVoid ELSE Err("argtype")
+     [] name = "map_get" -> IF n # 2 THEN Err("arity") ELSE IF IsTypedMap(ts[1]) /\ ts[2] = ts[1].a[1] THEN ts[1].a[2] ELSE Err("argtype")
+     [] name = "map_has" -> IF n # 2 THEN Err("arity") ELSE IF IsTypedMap(ts[1]) /\ ts[2] = ts[1].a[1] THEN TBool ELSE Err("argtype")
+     [] name = "map_remove" -> IF n # 2 THEN Err("arity") ELSE IF IsTypedMap(ts[1]) /\ ts[2] = ts[1].a[1] THEN TVoid ELSE Err("argtype")
+     [] name \in {"map_size", "map_length"} -> IF n # 1 THEN Err("arity") ELSE IF ts[1].k = "map" THEN TInt ELSE Err("argtype")
 
 RECURSIVE TypeOf(_, _, _), TypesOf(_, _, _, _, _)
 TypesOf(P, G, es, k, acc) == IF k > Len(es) THEN acc ELSE TypesOf(P, G, es, k + 1, Append(acc, TypeOf(P, G, es[k])))
@@ -162,6 +134,7 @@ TypeOf(P, G, e) ==
                ELSE IF Len(ts) # Len(x.ptyS) THEN Err("arity")
                ELSE IF \E j \in 1..Len(ts) : ~Compat(x.ptyS[j], ts[j]) THEN Err("argtype") ELSE x.retS
           ELSE IF e.s \in BuiltinsT THEN BuiltinType(e.s, ts)
+          ELSE IF e.s \in LibBuiltinsT THEN LibBuiltinType(e.s, ts)
           ELSE Err("scope")
      [] OTHER -> Err("expr")
 
